@@ -11,6 +11,9 @@ import (
 )
 
 func validateEnums(env *Environment, errorSink *validation.ErrorSink) *Environment {
+	// Base types can only be followed if all types are resolved and free of reference cycles
+	typesAreSound := len(errorSink.Errors) == 0
+
 	Visit(env, func(self Visitor, node Node) {
 		enum, ok := node.(*EnumDefinition)
 		if !ok {
@@ -57,6 +60,9 @@ func validateEnums(env *Environment, errorSink *validation.ErrorSink) *Environme
 		if enum.BaseType == nil {
 			baseType = PrimitiveInt32
 		} else {
+			if !typesAreSound {
+				return
+			}
 			underlyingType := GetUnderlyingType(enum.BaseType)
 			switch bt := underlyingType.(type) {
 			case *SimpleType:
